@@ -1,12 +1,639 @@
-//! C01: not yet implemented
+//! C01: archive lookup (GameData::exists / find_offset / extract) on synthetic installations.
+//!
+//! `gen` writes abstract archives (which index slots hold which entries, which dat files hold
+//! which contents, a query history); the Lean driver encodes every file with `Spec/Archive` /
+//! `Spec/SqPackData` and returns them as hex in `input`; `run` materialises them below a scratch
+//! `<tmp>/game/sqpack/<dir>/` and issues the queries on one `GameData` handle or on fresh ones.
 #![allow(unused)]
 use crate::util::*;
+use physis::common::Platform;
+use physis::gamedata::GameData;
 use std::io::Write;
+use std::panic::AssertUnwindSafe;
 
-pub fn generate(thorough: bool, seed: u64, out: &mut dyn Write) {}
+const CATS: [(&str, u32); 15] = [
+    ("common", 0x00),
+    ("bgcommon", 0x01),
+    ("bg", 0x02),
+    ("cut", 0x03),
+    ("chara", 0x04),
+    ("shader", 0x05),
+    ("ui", 0x06),
+    ("sound", 0x07),
+    ("vfx", 0x08),
+    ("ui_script", 0x09),
+    ("exd", 0x0a),
+    ("game_script", 0x0b),
+    ("music", 0x0c),
+    ("sqpack_test", 0x12),
+    ("debug", 0x13),
+];
+
+fn word(rng: &mut Rng) -> String {
+    let n = rng.range(1, 8) as usize;
+    (0..n)
+        .map(|_| match rng.below(12) {
+            0 => (b'0' + rng.below(10) as u8) as char,
+            1 => '_',
+            2 => '.',
+            3 => '-',
+            _ => (b'a' + rng.below(26) as u8) as char,
+        })
+        .collect()
+}
+
+/// a lower-case game path: category, optional repository token, 0..4 folders, file name
+fn gen_path(rng: &mut Rng, present_ex: &[u32]) -> String {
+    let cat = CATS[rng.below(15) as usize].0;
+    let mut comps: Vec<String> = vec![cat.to_string()];
+    match rng.below(10) {
+        0..=3 => {
+            if !present_ex.is_empty() {
+                comps.push(format!("ex{}", rng.pick(present_ex)));
+            }
+        }
+        4 => comps.push(format!("ex{}", rng.range(0, 10))), // maybe absent / ex0 / ex10
+        5 => comps.push("ffxiv".to_string()),
+        _ => {}
+    }
+    let depth = rng.below(5);
+    for _ in 0..depth {
+        comps.push(word(rng));
+    }
+    if comps.len() < 2 || rng.chance(9, 10) {
+        comps.push(format!("{}.{}", word(rng), rng.pick(&["exl", "mdl", "tex", "lgb", "dat"])));
+    }
+    comps.join("/")
+}
+
+fn mix_case(rng: &mut Rng, s: &str, mode: u64) -> String {
+    s.chars()
+        .map(|c| match mode {
+            0 => c,
+            1 => c.to_ascii_uppercase(),
+            _ => {
+                if rng.chance(1, 2) {
+                    c.to_ascii_uppercase()
+                } else {
+                    c
+                }
+            }
+        })
+        .collect()
+}
+
+/// expansion the lookup will consult for a lower-case path (the generator's ground truth; the
+/// expected answers are computed by the Lean specification, not from this)
+fn repo_of(path: &str, present_ex: &[u32]) -> u32 {
+    let mut it = path.split('/');
+    it.next();
+    if let Some(tok) = it.next() {
+        for e in present_ex {
+            if tok == format!("ex{}", e) {
+                return *e;
+            }
+        }
+    }
+    0
+}
+
+fn cat_of(path: &str) -> Option<u32> {
+    let c = path.split('/').next()?;
+    CATS.iter().find(|(n, _)| *n == c).map(|(_, id)| *id)
+}
+
+struct Slot {
+    exp: u32,
+    cat: u32,
+    chunk: u32,
+    kind: u32,
+    junk: Option<Vec<u8>>,
+    plat: u32,
+    hdr_kind: u32,
+    data_len: u32,
+    folder_len: u32,
+    entries: Vec<String>,
+}
+
+struct Dat {
+    exp: u32,
+    cat: u32,
+    chunk: u32,
+    id: u32,
+    next_unit: u64,
+    entries: Vec<(u64, Vec<u8>)>,
+}
+
+fn slot_str(s: &Slot) -> String {
+    match &s.junk {
+        Some(j) => format!("{}:{}:{}:{}:J{}", s.exp, s.cat, s.chunk, s.kind, hex(j)),
+        None => {
+            let mut t = format!(
+                "{}:{}:{}:{}:F,{},{},{},{}",
+                s.exp, s.cat, s.chunk, s.kind, s.plat, s.hdr_kind, s.data_len, s.folder_len
+            );
+            for e in &s.entries {
+                t.push(',');
+                t.push_str(e);
+            }
+            t
+        }
+    }
+}
+
+fn gen_archive(rng: &mut Rng, n_paths: usize, n_queries: usize, out: &mut dyn Write) {
+    let plat = rng.below(5) as u32;
+    let mut present_ex: Vec<u32> = (1..=9).filter(|_| rng.chance(1, 3)).collect();
+    let mut dirs: Vec<String> = vec![];
+    if rng.chance(19, 20) {
+        dirs.push("ffxiv".into());
+    }
+    for e in &present_ex {
+        dirs.push(format!("ex{}", e));
+    }
+    for _ in 0..rng.below(3) {
+        dirs.push(rng.pick(&["zzz", "movie", "abc_d", "exa", "ffxivgame", "tmp-x"]).to_string());
+    }
+    // listing order is arbitrary
+    for i in (1..dirs.len()).rev() {
+        let j = rng.below(i as u64 + 1) as usize;
+        dirs.swap(i, j);
+    }
+    let has_base = dirs.iter().any(|d| d == "ffxiv");
+
+    let mut slots: Vec<Slot> = vec![];
+    let mut dats: Vec<Dat> = vec![];
+    let mut stored: Vec<String> = vec![];
+    let mut all_paths: Vec<String> = vec![];
+    for _ in 0..n_paths {
+        let p = gen_path(rng, &present_ex);
+        all_paths.push(p.clone());
+        let Some(cat) = cat_of(&p) else { continue };
+        // where to store it: mostly where lookup goes, sometimes somewhere else (must not be found)
+        let right = repo_of(&p, &present_ex);
+        let (exp, cat) = match rng.below(12) {
+            0 => (*rng.pick(&[0u32, 1, 2, 3]), cat),
+            1 => (right, CATS[rng.below(15) as usize].1),
+            _ => (right, cat),
+        };
+        let chunk = match rng.below(10) {
+            0..=4 => 0,
+            5..=7 => rng.range(1, 9) as u32,
+            8 => rng.range(10, 99) as u32,
+            _ => rng.range(100, 254) as u32,
+        };
+        let kinds: Vec<u32> = match rng.below(4) {
+            0 => vec![1],
+            1 => vec![2],
+            _ => vec![1, 2],
+        };
+        let dat_id = rng.below(8) as u32;
+        let extractable = rng.chance(2, 3);
+        let syn = if rng.chance(1, 8) { 1 } else { 0 };
+        let units: u64;
+        if extractable {
+            let di = match dats
+                .iter()
+                .position(|d| d.exp == exp && d.cat == cat && d.chunk == chunk && d.id == dat_id)
+            {
+                Some(i) => i,
+                None => {
+                    dats.push(Dat { exp, cat, chunk, id: dat_id, next_unit: rng.below(4), entries: vec![] });
+                    dats.len() - 1
+                }
+            };
+            let len = match rng.below(4) {
+                0 => 0,
+                1 => rng.range(1, 8),
+                _ => rng.range(9, 300),
+            } as usize;
+            let mut content = rng.bytes(len);
+            units = dats[di].next_unit;
+            // 128-byte header + padded block
+            let used = 1 + (16 + len as u64 + 127) / 128;
+            dats[di].next_unit += used + rng.below(3);
+            dats[di].entries.push((units, content));
+        } else {
+            units = match rng.below(4) {
+                0 => rng.below(16),
+                1 => (1u64 << 28) - 1 - rng.below(4),
+                _ => rng.below(1 << 28),
+            };
+        }
+        for k in kinds {
+            let si = match slots
+                .iter()
+                .position(|s| s.exp == exp && s.cat == cat && s.chunk == chunk && s.kind == k && s.junk.is_none())
+            {
+                Some(i) => i,
+                None => {
+                    let hdr_kind = if rng.chance(1, 25) { 3 - k } else { k };
+                    slots.push(Slot {
+                        exp,
+                        cat,
+                        chunk,
+                        kind: k,
+                        junk: None,
+                        plat: if rng.chance(1, 10) { rng.below(5) as u32 } else { plat },
+                        hdr_kind,
+                        data_len: 256 * rng.below(3) as u32 + if rng.chance(1, 6) { rng.below(256) as u32 } else { 0 },
+                        folder_len: 16 * rng.below(4) as u32 + if rng.chance(1, 6) { rng.below(16) as u32 } else { 0 },
+                        entries: vec![],
+                    });
+                    slots.len() - 1
+                }
+            };
+            // a few unrelated entries around it
+            for _ in 0..rng.below(3) {
+                let e = format!(
+                    "H{}/{}/{}/{}/{}",
+                    rng.next() as u32,
+                    rng.next() as u32,
+                    rng.below(2),
+                    rng.below(8),
+                    rng.below(1 << 28)
+                );
+                slots[si].entries.push(e);
+            }
+            slots[si].entries.push(format!("P{}/{}/{}/{}", hex(p.as_bytes()), syn, dat_id, units));
+            // a later duplicate in the same table must lose against the first one
+            if rng.chance(1, 8) {
+                let e = format!("P{}/0/{}/{}", hex(p.as_bytes()), rng.below(8), rng.below(1 << 20));
+                slots[si].entries.push(e);
+            }
+        }
+        // the same path again in a later chunk (shadowed: chunk ascending, index before index2)
+        if chunk < 250 && rng.chance(1, 6) {
+            let k = rng.range(1, 2) as u32;
+            let chunk2 = chunk + rng.range(1, 4) as u32;
+            if !slots.iter().any(|s| s.exp == exp && s.cat == cat && s.chunk == chunk2 && s.kind == k) {
+                slots.push(Slot {
+                    exp,
+                    cat,
+                    chunk: chunk2,
+                    kind: k,
+                    junk: None,
+                    plat,
+                    hdr_kind: k,
+                    data_len: 256,
+                    folder_len: 16,
+                    entries: vec![format!("P{}/0/{}/{}", hex(p.as_bytes()), rng.below(8), rng.below(1 << 20))],
+                });
+            }
+        }
+        stored.push(p);
+    }
+    // junk and empty index files
+    for _ in 0..rng.below(3) {
+        let exp = if present_ex.is_empty() || rng.chance(1, 2) { 0 } else { *rng.pick(&present_ex) };
+        let cat = CATS[rng.below(15) as usize].1;
+        let chunk = rng.below(3) as u32;
+        let kind = rng.range(1, 2) as u32;
+        if slots.iter().any(|s| s.exp == exp && s.cat == cat && s.chunk == chunk && s.kind == kind) {
+            continue;
+        }
+        let junk = match rng.below(3) {
+            0 => vec![],
+            1 => { let n = rng.range(1, 64) as usize; rng.bytes(n) }
+            _ => b"SqPack\0".iter().cloned().chain(rng.bytes(40)).collect(),
+        };
+        slots.push(Slot { exp, cat, chunk, kind, junk: Some(junk), plat, hdr_kind: kind, data_len: 0, folder_len: 0, entries: vec![] });
+    }
+    // drop slots / dats of directories that do not exist (their files cannot exist)
+    let dir_ok = |e: u32| if e == 0 { has_base } else { present_ex.contains(&e) };
+    slots.retain(|s| dir_ok(s.exp));
+    dats.retain(|d| dir_ok(d.exp));
+    // occasionally remove a dat file that entries point into
+    if !dats.is_empty() && rng.chance(1, 6) {
+        let i = rng.below(dats.len() as u64) as usize;
+        dats.remove(i);
+    }
+
+    let mut qs: Vec<String> = vec![];
+    for _ in 0..n_queries {
+        let p: String = match rng.below(10) {
+            0..=5 if !stored.is_empty() => rng.pick(&stored).clone(),
+            6 if !all_paths.is_empty() => rng.pick(&all_paths).clone(),
+            7 => gen_path(rng, &present_ex),
+            8 => match rng.below(6) {
+                0 => word(rng),                                   // no '/'
+                1 => format!("what/{}", word(rng)),               // unknown category
+                2 => format!("bg/ex{}", rng.range(1, 9)),         // repository token is the file name
+                3 => format!("{}/", CATS[rng.below(15) as usize].0),
+                4 => format!("/{}", word(rng)),
+                _ => format!("exd/{}", word(rng)),
+            },
+            _ => {
+                // a stored path with its repository token changed / removed
+                if stored.is_empty() {
+                    gen_path(rng, &present_ex)
+                } else {
+                    let s = rng.pick(&stored).clone();
+                    let mut c: Vec<String> = s.split('/').map(|x| x.to_string()).collect();
+                    if c.len() > 2 && rng.chance(1, 2) {
+                        c[1] = format!("ex{}", rng.range(1, 9));
+                    } else {
+                        let i = c.len() - 1;
+                        c[i].push('x');
+                    }
+                    c.join("/")
+                }
+            }
+        };
+        let m = match rng.below(6) {
+            0 => 1,
+            1 | 2 => 2,
+            _ => 0,
+        };
+        let p = mix_case(rng, &p, m);
+        let kind = match rng.below(4) {
+            0 => 'e',
+            1 => 'o',
+            _ => 'x',
+        };
+        qs.push(format!("{}{}", kind, hex(p.as_bytes())));
+    }
+    let mode = if rng.chance(1, 4) { "fresh" } else { "one" };
+    let j = |v: Vec<String>, sep: &str| if v.is_empty() { "-".to_string() } else { v.join(sep) };
+    writeln!(
+        out,
+        "arch {} {} {} {} {} {}",
+        plat,
+        j(dirs.iter().map(|d| hex(d.as_bytes())).collect(), ","),
+        j(slots.iter().map(slot_str).collect(), ";"),
+        j(
+            dats.iter()
+                .map(|d| {
+                    format!(
+                        "{}:{}:{}:{}:{}",
+                        d.exp,
+                        d.cat,
+                        d.chunk,
+                        d.id,
+                        d.entries.iter().map(|(u, c)| format!("{}/{}", u, hex(c))).collect::<Vec<_>>().join(",")
+                    )
+                })
+                .collect(),
+            ";"
+        ),
+        j(qs, ","),
+        mode
+    )
+    .unwrap();
+}
+
+/// one entry per (platform, repository, category, chunk, kind): bounded-exhaustive sweep
+fn sweep(rng: &mut Rng, step: usize, out: &mut dyn Write) {
+    let mut n = 0usize;
+    for plat in 0..5u32 {
+        for exp in 0..10u32 {
+            for (cname, cat) in CATS.iter() {
+                for chunk in 0..10u32 {
+                    for kind in 1..=2u32 {
+                        n += 1;
+                        if n % step != 0 {
+                            continue;
+                        }
+                        let dirs = if exp == 0 { vec!["ffxiv".to_string()] } else { vec!["ffxiv".to_string(), format!("ex{}", exp)] };
+                        let w1 = word(rng);
+                        let w2 = word(rng);
+                        let p = if exp == 0 { format!("{}/{}/{}.dat", cname, w1, w2) } else { format!("{}/ex{}/{}/{}.dat", cname, exp, w1, w2) };
+                        let dat = rng.below(8);
+                        let clen = rng.range(1, 40) as usize;
+                        let content = rng.bytes(clen);
+                        let unit = rng.below(5);
+                        let slot = format!("{}:{}:{}:{}:F,{},{},256,16,P{}/0/{}/{}", exp, cat, chunk, kind, plat, kind, hex(p.as_bytes()), dat, unit);
+                        let d = format!("{}:{}:{}:{}:{}/{}", exp, cat, chunk, dat, unit, hex(&content));
+                        let up = p.to_ascii_uppercase();
+                        let other = format!("{}x", p);
+                        writeln!(
+                            out,
+                            "arch {} {} {} {} e{},o{},x{},x{},e{} one",
+                            plat,
+                            dirs.iter().map(|d| hex(d.as_bytes())).collect::<Vec<_>>().join(","),
+                            slot,
+                            d,
+                            hex(p.as_bytes()),
+                            hex(p.as_bytes()),
+                            hex(p.as_bytes()),
+                            hex(up.as_bytes()),
+                            hex(other.as_bytes())
+                        )
+                        .unwrap();
+                    }
+                }
+            }
+        }
+    }
+}
+
+/// one index file queried through `SqPackIndex` directly: every dat id, offsets at the ends of the
+/// 28-bit range, both kinds, 1..N entries
+fn gen_idx(rng: &mut Rng, out: &mut dyn Write) {
+    let kind = rng.range(1, 2);
+    let n = match rng.below(4) {
+        0 => 1,
+        1 => rng.range(2, 9),
+        _ => rng.range(2, 60),
+    } as usize;
+    let mut paths: Vec<String> = vec![];
+    let mut ents: Vec<String> = vec![];
+    for i in 0..n {
+        let p = gen_path(rng, &[1, 2, 3]);
+        let units = match rng.below(5) {
+            0 => 0,
+            1 => (1u64 << 28) - 1,
+            2 => rng.below(16),
+            _ => rng.below(1 << 28),
+        };
+        ents.push(format!("P{}/{}/{}/{}", hex(p.as_bytes()), rng.below(2), (i as u64 + rng.below(2)) % 8, units));
+        paths.push(p);
+    }
+    let mut qs: Vec<String> = vec![];
+    for _ in 0..(n + 3) {
+        let p = if rng.chance(3, 4) { rng.pick(&paths).clone() } else { gen_path(rng, &[1, 2, 3]) };
+        let m = rng.below(3);
+        qs.push(hex(mix_case(rng, &p, m).as_bytes()));
+    }
+    writeln!(
+        out,
+        "idx F,{},{},{},{},{} {}",
+        rng.below(5),
+        kind,
+        256 * rng.below(3),
+        16 * rng.below(3),
+        ents.join(","),
+        qs.join(",")
+    )
+    .unwrap();
+}
+
+pub fn generate(thorough: bool, seed: u64, out: &mut dyn Write) {
+    let mut rng = Rng::new(seed, "C01");
+    for _ in 0..(if thorough { 2000 } else { 60 }) {
+        gen_idx(&mut rng, out);
+    }
+    let mut sweep_buf: Vec<u8> = vec![];
+    sweep(&mut rng, if thorough { 1 } else { 41 }, &mut sweep_buf);
+    let sweep_lines: Vec<&[u8]> = sweep_buf.split(|b| *b == b'\n').filter(|l| !l.is_empty()).collect();
+    let (n_arch, n_q) = if thorough { (600, 200) } else { (40, 60) };
+    // interleave the (cheap) sweep cases with the (expensive) random installations so that the
+    // contiguous shards of the check are balanced
+    let per = sweep_lines.len() / n_arch + 1;
+    let mut next = 0usize;
+    for i in 0..n_arch {
+        for _ in 0..per {
+            if next < sweep_lines.len() {
+                out.write_all(sweep_lines[next]).unwrap();
+                out.write_all(b"\n").unwrap();
+                next += 1;
+            }
+        }
+        let n_paths = match i % 5 {
+            0 => rng.range(1, 3),
+            1 => rng.range(20, 40),
+            _ => rng.range(3, 15),
+        } as usize;
+        gen_archive(&mut rng, n_paths, n_q, out);
+    }
+    while next < sweep_lines.len() {
+        out.write_all(sweep_lines[next]).unwrap();
+        out.write_all(b"\n").unwrap();
+        next += 1;
+    }
+}
+
+fn platform(n: &str) -> Option<Platform> {
+    Some(match n {
+        "0" => Platform::Win32,
+        "1" => Platform::PS3,
+        "2" => Platform::PS4,
+        "3" => Platform::PS5,
+        "4" => Platform::Xbox,
+        _ => return None,
+    })
+}
+
+fn answer(game: &mut GameData, q: &str) -> String {
+    let (kind, p) = q.split_at(1);
+    let Some(p) = unhex(p) else { return "bad-case".into() };
+    let Ok(p) = String::from_utf8(p) else { return "bad-case".into() };
+    let mut g = AssertUnwindSafe(game);
+    match kind {
+        "e" => guarded(move || if g.exists(&p) { "T".into() } else { "F".into() }),
+        "o" => guarded(move || match g.find_offset(&p) {
+            Some(o) => format!("o{}", o),
+            None => "onone".into(),
+        }),
+        "x" => guarded(move || match g.extract(&p) {
+            Some(d) => format!("x{}", hex(&d)),
+            None => "xnone".into(),
+        }),
+        _ => "bad-case".into(),
+    }
+}
+
+fn run_idx(file: &str, qs: &str) -> String {
+    let Some(content) = unhex(file) else { return "bad-case".into() };
+    let tmp = TempDir::new("c01i");
+    let path = tmp.path().join("000000.win32.index");
+    std::fs::write(&path, content).unwrap();
+    let p = path.to_str().unwrap().to_string();
+    let Ok(Some(ix)) = std::panic::catch_unwind(move || physis::sqpack::SqPackIndex::from_existing(&p)) else {
+        return qs.split(',').map(|_| "noindex").collect::<Vec<_>>().join(",");
+    };
+    let mut out = vec![];
+    for q in qs.split(',') {
+        let Some(p) = unhex(q).and_then(|p| String::from_utf8(p).ok()) else { return "bad-case".into() };
+        let ixr = AssertUnwindSafe(&ix);
+        out.push(guarded(move || {
+            let found = ixr.find_entry(&p);
+            // `exists` must agree with `find_entry`
+            if ixr.exists(&p) != found.is_some() {
+                return "exists-disagrees".into();
+            }
+            match found {
+                Some(e) => format!("d{}o{}", e.data_file_id, e.offset),
+                None => "none".into(),
+            }
+        }));
+    }
+    out.join(",")
+}
 
 pub fn run(case: &str, input: &str) -> String {
-    "unimplemented".to_string()
+    let f: Vec<&str> = input.split(' ').collect();
+    if f.len() == 2 {
+        return run_idx(f[0], f[1]);
+    }
+    if f.len() != 5 {
+        return "bad-case".into();
+    }
+    let Some(plat) = platform(f[0]) else { return "bad-case".into() };
+    let tmp = TempDir::new("c01");
+    let game = tmp.path().join("game");
+    let sqpack = game.join("sqpack");
+    std::fs::create_dir_all(&sqpack).unwrap();
+    let mut dirs: Vec<String> = vec![];
+    if f[1] != "-" {
+        for d in f[1].split(',') {
+            let Some(d) = unhex(d).and_then(|d| String::from_utf8(d).ok()) else { return "bad-case".into() };
+            std::fs::create_dir_all(sqpack.join(&d)).unwrap();
+            dirs.push(d);
+        }
+    }
+    if f[2] != "-" {
+        for file in f[2].split(';') {
+            let Some((name, content)) = file.split_once(':') else { return "bad-case".into() };
+            let Some((d, n)) = name.split_once('/') else { return "bad-case".into() };
+            let (Some(d), Some(n), Some(content)) = (
+                unhex(d).and_then(|d| String::from_utf8(d).ok()),
+                unhex(n).and_then(|d| String::from_utf8(d).ok()),
+                unhex(content),
+            ) else {
+                return "bad-case".into();
+            };
+            if !dirs.contains(&d) {
+                return "bad-case".into();
+            }
+            std::fs::write(sqpack.join(&d).join(&n), content).unwrap();
+        }
+    }
+    let qs: Vec<&str> = if f[3] == "-" { vec![] } else { f[3].split(',').collect() };
+    let game_dir = game.to_str().unwrap().to_string();
+    let mut answers: Vec<String> = vec![];
+    match f[4] {
+        "one" => {
+            let gd = game_dir.clone();
+            let opened = std::panic::catch_unwind(move || GameData::from_existing(plat, &gd));
+            match opened {
+                Ok(Some(mut g)) => {
+                    for q in &qs {
+                        answers.push(answer(&mut g, q));
+                    }
+                }
+                Ok(None) => answers.push("nohandle".into()),
+                Err(_) => answers.push("panic:open".into()),
+            }
+        }
+        "fresh" => {
+            for q in &qs {
+                let gd = game_dir.clone();
+                let pl = plat.clone();
+                match std::panic::catch_unwind(move || GameData::from_existing(pl, &gd)) {
+                    Ok(Some(mut g)) => answers.push(answer(&mut g, q)),
+                    Ok(None) => answers.push("nohandle".into()),
+                    Err(_) => answers.push("panic:open".into()),
+                }
+            }
+        }
+        _ => return "bad-case".into(),
+    }
+    if answers.is_empty() {
+        "-".into()
+    } else {
+        answers.join(",")
+    }
 }
 
 pub fn dump(out: &mut dyn Write) {}
